@@ -1,6 +1,7 @@
 package simple
 
 import (
+	"github.com/akramarenkov/cqos/v2/priority"
 	"github.com/akramarenkov/cqos/v2/priority/divider"
 	"github.com/akramarenkov/cqos/v2/priority/types"
 )
@@ -62,5 +63,38 @@ func VerifC01_simple_handler() {
 			vAssert(vAnd(b.kind == 0, b.item == items[k]), "C02: Handle is invoked exactly once per item, with that item")
 			vAssert(vAnd(c.kind == 2, c.prio == prios[k]), "C01: the handler releases exactly the priority of the item it handled, after Handle returned")
 		}
+	}
+}
+
+// C01 (v2 simple), constructor: for every number of inputs N and every requested HandlersQuantity H the
+// simplified constructor accepts exactly the configurations the wrapped constructor accepts FOR THAT H, and
+// an accepted discipline runs exactly H handlers - never more concurrent Handle calls than the caller asked for
+// (H symbolic, 0..N+2: below, equal to and above the number of inputs; Fair).
+
+// gosym: mode=int
+func VerifC01_simple_new() {
+	N := vParam("N", 2)
+	Hs := vNondetUint("H") // symbolic: the solver picks the requested quantity, the handler loop forks on it
+	vAssume(Hs <= uint(N+2))
+	dv := divider.Fair
+	mk := func() map[uint]<-chan int {
+		ins := map[uint]<-chan int{}
+		for i := 1; i <= N; i++ {
+			ins[uint(i)] = make(chan int, 1)
+		}
+		return ins
+	}
+	_, errWrapped := priority.New(priority.Opts[int]{Divider: dv, HandlersQuantity: Hs, Inputs: mk()})
+	before := vSpawnCount()
+	_, err := New(Opts[int]{Divider: dv, Handle: func(int) {}, HandlersQuantity: Hs, Inputs: mk()})
+	vReach("constructed")
+	vAssert((err == nil) == (errWrapped == nil), "C01: the simplified constructor accepts a configuration exactly when the wrapped constructor accepts it for the requested HandlersQuantity")
+	if err == nil {
+		vAssert(uint(vSpawnCount()-before) == 1+Hs, "C01/C19: New starts the scheduling goroutine and exactly HandlersQuantity handlers")
+		for i := 1; i < vSpawnCount()-before; i++ {
+			vAssert(vSpawnedIs(before+i, "handler"), "C19: the goroutines started by the simplified discipline are handlers")
+		}
+	} else {
+		vAssert(vSpawnCount() == before, "C19: a rejected configuration starts no goroutine")
 	}
 }
